@@ -6,7 +6,7 @@ Mirrors `api/include/opentelemetry/common/attribute_value.h` (`common::Attribute
 passes), `sdk/include/opentelemetry/sdk/common/attribute_utils.h` (`OwnedAttributeValue`, `AttributeConverter`,
 `AttributeMap::SetAttribute`).  Numbers carry their mathematical value (the driver only builds in-range ones and rejects
 the rest), doubles are their 64-bit patterns, strings are byte lists so NUL and bytes ≥ 0x80 are in the domain. -/
-namespace Otel.Attr
+namespace Otel.SAttr
 
 /-- `common::AttributeValue`, alternatives in source order -/
 inductive Value where
@@ -133,4 +133,4 @@ def Map.ofIterable (kvs : List (Bytes × Value)) : Map := kvs.foldl (fun m kv =>
 
 def Map.keys (m : Map) : List Bytes := m.map (·.1)
 
-end Otel.Attr
+end Otel.SAttr
